@@ -610,7 +610,8 @@ CHECKS["C19"] = dict(
           "diagonal: many faces of EPA's polytope visible at once in every order of the face array); corpus = F-J1 (fixed by 3066ace), F-M1, "
           "F-L1 (5), F-N2 (6), F-P1 (fixed by fdadc7f) regressions. Known findings: F2-C19, narrowed to EPA after a GJK exit with n_points < 4 "
           "whose returned work array contains UNINITIALISED rows (rows that are not differences of support points of that run; observed "
-          "exactly)."),
+          "exactly; its manifestation depends on the heap and is shown on every run by a corpus input with a poisoned heap). A quarter of the pairs "
+          "have one or both colliders brought to their placement by update_pose instead of the constructor."),
     design_ref="DESIGN.md section 5, C19",
     technique="Coq proof that every capped narrow-phase loop makes at most f(caps) support evaluations for arbitrary oracles, with caps and loop shapes re-extracted from the source each run (fail-closed ast reader); strict-decrease theorem for the Jolt loop over the reals; liveness / finiteness / exception policy of all entry points monitored on generated degenerate inputs, compiled and interpreted",
     note=TB + "; " + RA + " for the two Jolt theorems only; harness/narrow_caps.py (ast reader; counts support evaluations through module-level callees and pins every counter; NOT seen: calls through objects other than `<expr>.support_function`, dynamically bound names, callables passed as data); the support-evaluation counter wraps collider.support_function (the specialised Nesterov supports bypass it: there the returned iteration count is bounded instead)",
